@@ -9,10 +9,13 @@
 // vector operand  = <FV|DV|SC> <n> <list>  (SC = plain scalar used as a vector of size 1)
 // scalar operand  = <list>
 // answer: vector -> <list>, matrix -> "<r> <c> <list>", comparison -> true|false
+// object histories (several objects, a sequence of operations, the storage behind every object after every operation):
+// see "seq" below
 #include <config.h>
 
 #include <complex>
 #include <functional>
+#include <memory>
 #include <type_traits>
 
 #include <dune/common/diagonalmatrix.hh>
@@ -217,6 +220,8 @@ template <class K> bool parseScalar(const std::vector<std::string>& w, size_t& p
 }
 
 // ---- results ---------------------------------------------------------------------------------------------------------
+// set when a scalar view that was handed to an operation no longer stands for the scalar it was created from
+static bool& viewIncoherent() { static bool f = false; return f; }
 static Result badOp(const std::string& why) { return Result{"bad-op", "FAIL harness cannot execute: " + why}; }
 static Result inexact() { return Result{"inexact", "ok trivial"}; }
 
@@ -358,6 +363,9 @@ bool withStored(const PM<K>& m, bool mut, bool& modified, F&& f) {
   } else if (m.base == "SV") {
     if constexpr ((MASK & bSV) && (FR == 0 || FR == 1) && (FC == 0 || FC == 1)) {
       K s = m.e[0]; auto A = Dune::Impl::asMatrix(s); f(A); after(A);
+      // the view is a handle onto `s`: what it shows and what the scalar variable holds must stay the same thing
+      if (!(A[0][0] == s)) viewIncoherent() = true;
+      if (!mut && !(s == m.e[0])) modified = true;
     }
   }
   return done;
@@ -1099,6 +1107,450 @@ template <class K> Result execAssign(const std::string& op, const std::vector<st
   return matResult<K>(got, logical(A), amod ? "operand modified" : "");
 }
 
+// ---- object histories ("seq") ----------------------------------------------------------------------------------------
+// Several objects, a sequence of operations on them, and after EVERY operation the storage behind EVERY object (for a
+// scalar view: the scalar variable it was created from, read directly, not through the view).  This is where handle types
+// (ScalarVectorView, ScalarMatrixView, TransposedMatrixWrapper) differ from owning ones: their state is more than entries.
+//
+// line:   <K> seq <decl> <decl> ... : <op>;<op>;...
+// decl  = FV n list | DV n list | SC 1 list | SCC 1 list                (SC = scalar variable s + Impl::asVector(s); SCC = view of the const scalar)
+//       | FM r c list | DM r c list | DG n n list | SV 1 1 list | SVC 1 1 list   (SV = scalar variable s + Impl::asMatrix(s))
+//       | TV i                                                         (transposedView of matrix object i, created before the first op)
+// op    = asg t s | fill t k | add t s | sub t s | axpy t k s | scale t k | lmul t s | rmul t s | <kernel> a alpha x y
+//         (object t = object s; t = k; t += s; t -= s; t.axpy(k,s); t *= k; t.leftmultiply(s); t.rightmultiply(s); a.kernel([alpha,] x, y))
+// answer: per op the storage of every object "[..]|[..]|-" (a TV has none: "-"), ops joined by ';'
+namespace sq {
+
+// vector tags: 0 DV, 1..3 FV<n>, 4 SC, 5 SCC       matrix tags: 0 FM11, 1 FM22, 2 DM, 3 DG2, 4 SV, 5 SVC
+constexpr int vDV = 0, vSC = 4, vSCC = 5;
+constexpr int mFM11 = 0, mFM22 = 1, mDM = 2, mDG2 = 3, mSV = 4, mSVC = 5;
+enum OpK { oAsg, oFill, oAdd, oSub, oAxpy, oScale, oLmul, oRmul };
+
+// which pairs (target, source) of vector objects an operation is executed for (sizes must agree as well)
+constexpr bool vecPairOk(int op, int t, int s) {
+  if (t == vSCC) return false;
+  if (t >= 1 && t <= 3) return s == t || s == vDV || (t == 1 && (s == vSC || s == vSCC));
+  if (t == vDV) return true;
+  // t == SC: assignment from a DynamicVector does not exist (no conversion to the scalar)
+  if (s == 2 || s == 3) return false;
+  return !(op == oAsg && s == vDV);
+}
+constexpr bool matPairOk(int op, int t, int s) {
+  const bool one = (s == mFM11 || s == mDM || s == mSV || s == mSVC);
+  switch (t) {
+    case mFM11: return (op == oAdd || op == oSub) ? s == mFM11 : one;   // FieldMatrix<K,1,1> hides the generic += / -=
+    case mFM22: return s == mFM22 || s == mDM || (op == oAsg && s == mDG2);
+    case mDM: return s != mDG2 || op == oAsg;
+    case mDG2: return s == mDG2 && (op == oAsg || op == oAdd || op == oSub);
+    case mSV: return op == oAsg ? (s == mFM11 || s == mSV || s == mSVC) : one;
+  }
+  return false;
+}
+// which (matrix, x, y) triples the kernels are executed for; tv: the matrix is a transposed view of an object with tag `a`
+constexpr bool kernTripleOk(int a, bool tv, int x, int y) {
+  auto p = [&](int xx, int yy) { return x == xx && y == yy; };
+  if (tv) {
+    switch (a) {
+      case mFM22: case mDG2: return p(2, 2);
+      case mDM: return p(vDV, vDV);
+      case mSV: return p(vSC, vSC) || p(1, 1);
+    }
+    return false;
+  }
+  switch (a) {
+    case mFM11: return p(1, 1) || p(vSC, vSC) || p(vSCC, vSC) || p(vDV, vDV);
+    case mSV: case mSVC: return p(1, 1) || p(vSC, vSC) || p(vSCC, vSC) || p(vSC, 1);
+    case mDM: return p(vDV, vDV) || p(vSCC, vSC) || p(vDV, vSC);
+    case mFM22: return p(2, 2);
+    case mDG2: return p(2, 2) || p(vDV, vDV);
+  }
+  return false;
+}
+
+template <class K> struct Reg {
+  std::string kind;
+  bool isVec = false, isTV = false;
+  int tag = 0, r = 1, c = 1, wraps = -1;   // r x c: shape of the stored object (vectors 1 x n)
+  virtual ~Reg() = default;
+  virtual std::vector<K> store() const = 0;   // the storage the object stands for, raw layout (DG: the diagonal)
+  virtual std::vector<K> via() const = 0;     // the same entries read through the object
+};
+template <class K, class M> std::vector<K> rawMat(const M& A) {
+  std::vector<K> o;
+  if constexpr (IsDiag<M>::value) { for (size_t i = 0; i < A.N(); ++i) o.push_back(A.diagonal(i)); }
+  else { for (size_t i = 0; i < A.N(); ++i) for (size_t j = 0; j < A.M(); ++j) o.push_back(A[i][j]); }
+  return o;
+}
+template <class K, class V> struct VecOwn : Reg<K> {
+  V o;
+  template <class... A> VecOwn(A&&... a) : o(std::forward<A>(a)...) {}
+  std::vector<K> store() const override { return readVec<K>(o, 0); }
+  std::vector<K> via() const override { return readVec<K>(o, 0); }
+};
+template <class K, class KK> struct VecView : Reg<K> {   // KK = K or const K
+  K s;
+  Dune::Impl::ScalarVectorView<KK> o;
+  explicit VecView(K v) : s(v), o(Dune::Impl::asVector(static_cast<KK&>(s))) {}
+  VecView(const VecView&) = delete;
+  std::vector<K> store() const override { return {s}; }
+  std::vector<K> via() const override { return {o[0]}; }
+};
+template <class K, class M> struct MatOwn : Reg<K> {
+  M o;
+  template <class... A> MatOwn(A&&... a) : o(std::forward<A>(a)...) {}
+  std::vector<K> store() const override { return rawMat<K>(o); }
+  std::vector<K> via() const override { return rawMat<K>(o); }
+};
+template <class K, class KK> struct MatView : Reg<K> {
+  K s;
+  Dune::Impl::ScalarMatrixView<KK> o;
+  explicit MatView(K v) : s(v), o(Dune::Impl::asMatrix(static_cast<KK&>(s))) {}
+  MatView(const MatView&) = delete;
+  std::vector<K> store() const override { return {s}; }
+  std::vector<K> via() const override { return {o[0][0]}; }
+};
+template <class K, class M> struct TVReg : Reg<K> {
+  using V = decltype(Dune::transposedView(std::declval<const M&>()));
+  V o;
+  explicit TVReg(const M& m) : o(Dune::transposedView(m)) {}
+  std::vector<K> store() const override { return {}; }
+  std::vector<K> via() const override { auto D = o.asDense(); return rawMat<K>(D); }   // row-major, shape c x r of the wrapped object
+};
+
+template <class T> struct IsDynVec : std::false_type {};
+template <class K> struct IsDynVec<Dune::DynamicVector<K>> : std::true_type {};
+template <class T> struct IsSVV : std::false_type {};
+template <class K> struct IsSVV<Dune::Impl::ScalarVectorView<K>> : std::true_type {};
+template <class K> struct IsSVV<Dune::Impl::ScalarVectorView<const K>> : std::true_type {};
+template <class V> constexpr int vecTag() {
+  if constexpr (isFV<V>) return fvSize<V>;
+  else if constexpr (IsDynVec<V>::value) return vDV;
+  else if constexpr (std::is_same_v<V, Dune::Impl::ScalarVectorView<const typename Dune::FieldTraits<V>::field_type>>) return vSCC;
+  else return vSC;
+}
+template <class M> constexpr int matTag() {
+  if constexpr (Dune::Impl::IsFieldMatrix_v<M>) return M::rows == 1 ? mFM11 : mFM22;
+  else if constexpr (IsDiag<M>::value) return mDG2;
+  else if constexpr (IsSV<M>::value) return std::is_same_v<M, Dune::Impl::ScalarMatrixView<const typename Dune::FieldTraits<M>::field_type>> ? mSVC : mSV;
+  else return mDM;
+}
+
+template <class K, class F> bool visitVec(Reg<K>& g, F&& f) {
+  if (auto* p = dynamic_cast<VecOwn<K, Dune::DynamicVector<K>>*>(&g)) { f(p->o); return true; }
+  if (auto* p = dynamic_cast<VecOwn<K, Dune::FieldVector<K, 1>>*>(&g)) { f(p->o); return true; }
+  if (auto* p = dynamic_cast<VecOwn<K, Dune::FieldVector<K, 2>>*>(&g)) { f(p->o); return true; }
+  if (auto* p = dynamic_cast<VecOwn<K, Dune::FieldVector<K, 3>>*>(&g)) { f(p->o); return true; }
+  if (auto* p = dynamic_cast<VecView<K, K>*>(&g)) { f(p->o); return true; }
+  if (auto* p = dynamic_cast<VecView<K, const K>*>(&g)) { f(p->o); return true; }
+  return false;
+}
+template <class K, class F> bool visitMat(Reg<K>& g, F&& f) {   // owning matrices and scalar views
+  if (auto* p = dynamic_cast<MatOwn<K, Dune::DynamicMatrix<K>>*>(&g)) { f(p->o); return true; }
+  if (auto* p = dynamic_cast<MatOwn<K, Dune::FieldMatrix<K, 1, 1>>*>(&g)) { f(p->o); return true; }
+  if (auto* p = dynamic_cast<MatOwn<K, Dune::FieldMatrix<K, 2, 2>>*>(&g)) { f(p->o); return true; }
+  if (auto* p = dynamic_cast<MatOwn<K, Dune::DiagonalMatrix<K, 2>>*>(&g)) { f(p->o); return true; }
+  if (auto* p = dynamic_cast<MatView<K, K>*>(&g)) { f(p->o); return true; }
+  if (auto* p = dynamic_cast<MatView<K, const K>*>(&g)) { f(p->o); return true; }
+  return false;
+}
+template <class K, class F> bool visitTV(Reg<K>& g, F&& f) {
+  if (auto* p = dynamic_cast<TVReg<K, Dune::DynamicMatrix<K>>*>(&g)) { f(p->o); return true; }
+  if (auto* p = dynamic_cast<TVReg<K, Dune::FieldMatrix<K, 2, 2>>*>(&g)) { f(p->o); return true; }
+  if (auto* p = dynamic_cast<TVReg<K, Dune::DiagonalMatrix<K, 2>>*>(&g)) { f(p->o); return true; }
+  if (auto* p = dynamic_cast<TVReg<K, Dune::Impl::ScalarMatrixView<K>>*>(&g)) { f(p->o); return true; }
+  return false;
+}
+
+// declared objects of one case (plain description; the generator works on these as well)
+struct Decl { std::string kind; bool isVec = false, isTV = false; int tag = 0, r = 1, c = 1, wraps = -1; };
+inline bool declShape(Decl& d) {   // fills tag / isVec from kind + shape; false when the combination is not instantiated
+  const std::string& k = d.kind;
+  if (k == "FV") { d.isVec = true; d.tag = d.c; return d.r == 1 && d.c >= 1 && d.c <= 3; }
+  if (k == "DV") { d.isVec = true; d.tag = vDV; return d.r == 1 && d.c >= 1 && d.c <= 4; }
+  if (k == "SC") { d.isVec = true; d.tag = vSC; return d.r == 1 && d.c == 1; }
+  if (k == "SCC") { d.isVec = true; d.tag = vSCC; return d.r == 1 && d.c == 1; }
+  if (k == "FM") { d.tag = d.r == 1 ? mFM11 : mFM22; return (d.r == 1 && d.c == 1) || (d.r == 2 && d.c == 2); }
+  if (k == "DM") { d.tag = mDM; return d.r >= 1 && d.r <= 3 && d.c >= 1 && d.c <= 3; }
+  if (k == "DG") { d.tag = mDG2; return d.r == 2 && d.c == 2; }
+  if (k == "SV") { d.tag = mSV; return d.r == 1 && d.c == 1; }
+  if (k == "SVC") { d.tag = mSVC; return d.r == 1 && d.c == 1; }
+  return false;
+}
+struct Op { std::string name; int kind = -1; const KDef* kd = nullptr; int t = -1, s = -1, a = -1, x = -1, y = -1; };
+// is the operation executed for these objects?  (shared by generator and executor; the Lean driver has the same table)
+inline bool opOk(const std::vector<Decl>& d, const Op& o) {
+  auto in = [&](int i) { return i >= 0 && i < (int)d.size(); };
+  if (o.kd) {
+    if (!in(o.a) || !in(o.x) || !in(o.y) || o.x == o.y) return false;
+    const Decl& A = d[o.a];
+    if (A.isVec || !d[o.x].isVec || !d[o.y].isVec) return false;
+    const Decl& B = A.isTV ? d[A.wraps] : A;
+    if (A.isTV && std::string(o.kd->name) != "mv" && std::string(o.kd->name) != "mtv") return false;
+    if (!kernTripleOk(B.tag, A.isTV, d[o.x].tag, d[o.y].tag)) return false;
+    int R = A.isTV ? B.c : B.r, C = A.isTV ? B.r : B.c;   // logical shape of the matrix operand
+    bool tr = o.kd->tr != 'N';
+    return d[o.x].c == (tr ? R : C) && d[o.y].c == (tr ? C : R);
+  }
+  if (!in(o.t) || d[o.t].isTV) return false;
+  const Decl& T = d[o.t];
+  if (o.kind == oFill || o.kind == oScale) return T.isVec ? T.tag != vSCC : T.tag != mSVC;
+  if (!in(o.s) || o.s == o.t || d[o.s].isTV) return false;
+  const Decl& S = d[o.s];
+  if (T.isVec != S.isVec || T.r != S.r || T.c != S.c) return false;
+  if (T.isVec) return o.kind != oLmul && o.kind != oRmul && vecPairOk(o.kind, T.tag, S.tag);
+  if ((o.kind == oLmul || o.kind == oRmul) && (T.r != T.c || T.tag == mDG2 || S.tag == mDG2)) return false;
+  if (o.kind == oAxpy && T.tag == mDG2) return false;
+  return matPairOk(o.kind, T.tag, S.tag);
+}
+
+template <class K> Full<K> expand(const Decl& d, const std::vector<K>& raw) {   // logical full matrix of a stored object
+  Full<K> f(d.r, d.c);
+  if (d.kind == "DG") { for (int i = 0; i < d.r; ++i) f(i, i) = raw[i]; }
+  else f.a = raw;
+  return f;
+}
+template <class K> std::vector<K> contract(const Decl& d, const Full<K>& f) {
+  if (d.kind != "DG") return f.a;
+  std::vector<K> o;
+  for (int i = 0; i < d.r; ++i) o.push_back(f(i, i));
+  return o;
+}
+
+template <class K> Result exec(const std::vector<std::string>& w, const std::string& line) {
+  // ---- declarations
+  std::vector<Decl> decl;
+  std::vector<std::vector<K>> init;
+  size_t p = 2;
+  for (; p < w.size() && w[p] != ":";) {
+    Decl d;
+    d.kind = w[p];
+    if (d.kind == "TV") {
+      if (p + 2 > w.size()) return badOp("seq declaration");
+      try { d.wraps = std::stoi(w[p + 1]); } catch (...) { return badOp("seq declaration"); }
+      if (d.wraps < 0 || d.wraps >= (int)decl.size()) return badOp("TV of an undeclared object");
+      const Decl& B = decl[d.wraps];
+      if (B.isVec || B.isTV || !(B.tag == mFM22 || B.tag == mDM || B.tag == mDG2 || B.tag == mSV)) return badOp("TV of this object");
+      d.isTV = true; d.r = B.r; d.c = B.c;
+      init.push_back({});
+      p += 2;
+    } else {
+      bool vec = d.kind == "FV" || d.kind == "DV" || d.kind == "SC" || d.kind == "SCC";
+      size_t need = vec ? 3 : 4;
+      if (p + need > w.size()) return badOp("seq declaration");
+      try {
+        if (vec) { d.r = 1; d.c = std::stoi(w[p + 1]); } else { d.r = std::stoi(w[p + 1]); d.c = std::stoi(w[p + 2]); }
+      } catch (...) { return badOp("seq declaration"); }
+      if (!declShape(d)) return badOp("seq object kind / shape");
+      std::vector<K> e;
+      if (!decList<K>(w[p + need - 1], e) || (int)e.size() != (d.kind == "DG" ? d.r : d.r * d.c)) return badOp("seq entries");
+      init.push_back(e);
+      p += need;
+    }
+    decl.push_back(d);
+  }
+  if (p >= w.size() || decl.empty() || decl.size() > 8) return badOp("seq: no operations");
+  // ---- the real objects
+  std::vector<std::unique_ptr<Reg<K>>> reg;
+  for (size_t i = 0; i < decl.size(); ++i) {
+    const Decl& d = decl[i];
+    const std::vector<K>& e = init[i];
+    std::unique_ptr<Reg<K>> g;
+    if (d.kind == "FV") {
+      withInt(d.c, [&](auto N) { constexpr int n = decltype(N)::value; if constexpr (n <= 3) { auto* q = new VecOwn<K, Dune::FieldVector<K, n>>(); fillVec<K>(q->o, e); g.reset(q); } });
+    } else if (d.kind == "DV") { auto* q = new VecOwn<K, Dune::DynamicVector<K>>(d.c); fillVec<K>(q->o, e); g.reset(q); }
+    else if (d.kind == "SC") g.reset(new VecView<K, K>(e[0]));
+    else if (d.kind == "SCC") g.reset(new VecView<K, const K>(e[0]));
+    else if (d.kind == "FM") {
+      PM<K> m; m.base = "FM"; m.r = d.r; m.c = d.c; m.e = e;
+      if (d.r == 1) { auto* q = new MatOwn<K, Dune::FieldMatrix<K, 1, 1>>(); fillMat<K>(q->o, m); g.reset(q); }
+      else { auto* q = new MatOwn<K, Dune::FieldMatrix<K, 2, 2>>(); fillMat<K>(q->o, m); g.reset(q); }
+    } else if (d.kind == "DM") { PM<K> m; m.base = "DM"; m.r = d.r; m.c = d.c; m.e = e; auto* q = new MatOwn<K, Dune::DynamicMatrix<K>>(d.r, d.c, K(0)); fillMat<K>(q->o, m); g.reset(q); }
+    else if (d.kind == "DG") { PM<K> m; m.base = "DG"; m.r = d.r; m.c = d.c; m.e = e; auto* q = new MatOwn<K, Dune::DiagonalMatrix<K, 2>>(); fillMat<K>(q->o, m); g.reset(q); }
+    else if (d.kind == "SV") g.reset(new MatView<K, K>(e[0]));
+    else if (d.kind == "SVC") g.reset(new MatView<K, const K>(e[0]));
+    else if (d.kind == "TV") {
+      Reg<K>& B = *reg[d.wraps];
+      if (auto* b = dynamic_cast<MatOwn<K, Dune::DynamicMatrix<K>>*>(&B)) g.reset(new TVReg<K, Dune::DynamicMatrix<K>>(b->o));
+      else if (auto* b = dynamic_cast<MatOwn<K, Dune::FieldMatrix<K, 2, 2>>*>(&B)) g.reset(new TVReg<K, Dune::FieldMatrix<K, 2, 2>>(b->o));
+      else if (auto* b = dynamic_cast<MatOwn<K, Dune::DiagonalMatrix<K, 2>>*>(&B)) g.reset(new TVReg<K, Dune::DiagonalMatrix<K, 2>>(b->o));
+      else if (auto* b = dynamic_cast<MatView<K, K>*>(&B)) g.reset(new TVReg<K, Dune::Impl::ScalarMatrixView<K>>(b->o));
+    }
+    if (!g) return badOp("seq object not instantiated");
+    g->kind = d.kind; g->isVec = d.isVec; g->isTV = d.isTV; g->tag = d.tag; g->r = d.r; g->c = d.c; g->wraps = d.wraps;
+    reg.push_back(std::move(g));
+  }
+  // ---- the shadow: logical full matrices on plain vectors
+  std::vector<Full<K>> sh(decl.size());
+  for (size_t i = 0; i < decl.size(); ++i) if (!decl[i].isTV) sh[i] = expand<K>(decl[i], init[i]);
+  auto logicalOf = [&](int i) {
+    if (!decl[i].isTV) return sh[i];
+    const Full<K>& b = sh[decl[i].wraps];
+    Full<K> t(b.c, b.r);
+    for (int a = 0; a < b.r; ++a) for (int c = 0; c < b.c; ++c) t(c, a) = b(a, c);
+    return t;
+  };
+  // ---- the operations
+  std::string rest = line.substr(line.find(" : ") == std::string::npos ? line.size() : line.find(" : ") + 3);
+  std::vector<std::string> segs = split(rest, ';');
+  if (segs.empty() || segs.size() > 40) return badOp("seq operations");
+  Result res;
+  std::string fail;
+  std::ostringstream impl;
+  stat("op_seq"); stat("seq_objects_" + std::to_string(decl.size())); stat("seq_len_" + std::to_string(segs.size()));
+  for (size_t si = 0; si < segs.size(); ++si) {
+    auto t = words(segs[si]);
+    if (t.empty()) return badOp("empty seq operation");
+    Op o; o.name = t[0];
+    K k = K(0);
+    auto idx = [&](const std::string& s, int& v) { try { size_t q = 0; v = std::stoi(s, &q); return q == s.size(); } catch (...) { return false; } };
+    auto scal = [&](const std::string& s) { std::vector<K> l; if (!decList<K>(s, l) || l.size() != 1) return false; k = l[0]; return true; };
+    bool okp = false;
+    if (o.name == "asg" || o.name == "add" || o.name == "sub" || o.name == "lmul" || o.name == "rmul") {
+      o.kind = o.name == "asg" ? oAsg : o.name == "add" ? oAdd : o.name == "sub" ? oSub : o.name == "lmul" ? oLmul : oRmul;
+      okp = t.size() == 3 && idx(t[1], o.t) && idx(t[2], o.s);
+    } else if (o.name == "fill" || o.name == "scale") {
+      o.kind = o.name == "fill" ? oFill : oScale;
+      okp = t.size() == 3 && idx(t[1], o.t) && scal(t[2]);
+    } else if (o.name == "axpy") { o.kind = oAxpy; okp = t.size() == 4 && idx(t[1], o.t) && scal(t[2]) && idx(t[3], o.s); }
+    else if ((o.kd = kdef(o.name))) okp = t.size() == 5 && idx(t[1], o.a) && scal(t[2]) && idx(t[3], o.x) && idx(t[4], o.y);
+    if (!okp) return badOp("seq operation '" + segs[si] + "'");
+    if (!opOk(decl, o)) return badOp("seq operation '" + segs[si] + "' is not executed for these objects");
+    stat("seqop_" + o.name);
+    // -- expectation (the definition, on the shadow)
+    int target = o.kd ? o.y : o.t;
+    if (o.kd) {
+      Full<K> A = logicalOf(o.a);
+      const Full<K>& X = sh[o.x];
+      Full<K>& Y = sh[o.y];
+      int outN = o.kd->tr == 'N' ? A.r : A.c, inN = o.kd->tr == 'N' ? A.c : A.r;
+      for (int i = 0; i < outN; ++i) {
+        K s = K(0);
+        for (int j = 0; j < inN; ++j) {
+          K a = o.kd->tr == 'N' ? A(i, j) : A(j, i);
+          if (o.kd->tr == 'H') a = Cd<K>::conj(a);
+          s = s + a * X.a[j];
+        }
+        if (o.kd->alpha) s = k * s;
+        Y.a[i] = o.kd->mode == '=' ? s : o.kd->mode == '+' ? Y.a[i] + s : Y.a[i] - s;
+      }
+      stat("seqkern_" + decl[o.a].kind + (decl[o.a].isTV ? decl[decl[o.a].wraps].kind : "") + "," + decl[o.x].kind + "," + decl[o.y].kind);
+    } else {
+      Full<K>& T = sh[o.t];
+      const bool diag = decl[o.t].kind == "DG";
+      if (o.kind == oFill) { for (int i = 0; i < T.r; ++i) for (int j = 0; j < T.c; ++j) T(i, j) = (!diag || i == j) ? k : K(0); }
+      else if (o.kind == oScale) { for (auto& v : T.a) v = v * k; }
+      else {
+        const Full<K> S = sh[o.s];
+        if (o.kind == oAsg) T.a = S.a;
+        else if (o.kind == oAdd) { for (size_t i = 0; i < T.a.size(); ++i) T.a[i] = T.a[i] + S.a[i]; }
+        else if (o.kind == oSub) { for (size_t i = 0; i < T.a.size(); ++i) T.a[i] = T.a[i] - S.a[i]; }
+        else if (o.kind == oAxpy) { for (size_t i = 0; i < T.a.size(); ++i) T.a[i] = T.a[i] + k * S.a[i]; }
+        else if (o.kind == oLmul) T = mulOracle<K>(S, Full<K>(T));
+        else if (o.kind == oRmul) T = mulOracle<K>(Full<K>(T), S);
+        stat("seq" + o.name + "_" + decl[o.t].kind + "," + decl[o.s].kind);
+      }
+    }
+    // -- the real call
+    bool ran = false;
+    if (o.kd) {
+      const std::string n = o.kd->name;
+      auto onMat = [&](auto& A, auto TVflag, auto BaseTag) {
+        constexpr bool tv = decltype(TVflag)::value;
+        constexpr int at = decltype(BaseTag)::value;
+        visitVec<K>(*reg[o.x], [&](auto& X) {
+          using XT = std::decay_t<decltype(X)>;
+          visitVec<K>(*reg[o.y], [&](auto& Y) {
+            using YT = std::decay_t<decltype(Y)>;
+            if constexpr (kernTripleOk(at, tv, vecTag<XT>(), vecTag<YT>())) {
+              ran = o.kd->tr != 'N' ? callKernel<true>(std::as_const(A), n, k, std::as_const(X), Y)
+                                    : callKernel<false>(std::as_const(A), n, k, std::as_const(X), Y);
+            }
+          });
+        });
+      };
+      if (decl[o.a].isTV)
+        visitTV<K>(*reg[o.a], [&](auto& A) {
+          using WM = std::remove_cv_t<typename std::decay_t<decltype(A)>::WrappedMatrix>;
+          onMat(A, std::true_type{}, IC<matTag<WM>()>{});
+        });
+      else
+        visitMat<K>(*reg[o.a], [&](auto& A) { onMat(A, std::false_type{}, IC<matTag<std::decay_t<decltype(A)>>()>{}); });
+    } else if (o.kind == oFill || o.kind == oScale) {
+      auto un = [&](auto& T, auto writable) {
+        if constexpr (decltype(writable)::value) {
+          if (o.kind == oFill) { T = k; ran = true; } else { auto& R = (T *= k); ran = ((const void*)&R == (const void*)&T); }
+        }
+      };
+      if (decl[o.t].isVec) visitVec<K>(*reg[o.t], [&](auto& T) { un(T, std::bool_constant<vecTag<std::decay_t<decltype(T)>>() != vSCC>{}); });
+      else visitMat<K>(*reg[o.t], [&](auto& T) { un(T, std::bool_constant<matTag<std::decay_t<decltype(T)>>() != mSVC>{}); });
+    } else if (decl[o.t].isVec) {
+      visitVec<K>(*reg[o.t], [&](auto& T) {
+        using TT = std::decay_t<decltype(T)>;
+        visitVec<K>(*reg[o.s], [&](auto& S0) {
+          const auto& S = S0;
+          using ST = std::decay_t<decltype(S0)>;
+          if constexpr (vecPairOk(oAdd, vecTag<TT>(), vecTag<ST>())) {
+            if (o.kind == oAdd) { auto& R = (T += S); ran = (&R == &T); }
+            else if (o.kind == oSub) { auto& R = (T -= S); ran = (&R == &T); }
+            else if (o.kind == oAxpy) { auto& R = T.axpy(k, S); ran = (&R == &T); }
+          }
+          if constexpr (vecPairOk(oAsg, vecTag<TT>(), vecTag<ST>())) {
+            if (o.kind == oAsg) { auto& R = (T = S); ran = (&R == &T); }
+          }
+        });
+      });
+    } else {
+      visitMat<K>(*reg[o.t], [&](auto& T) {
+        using TT = std::decay_t<decltype(T)>;
+        visitMat<K>(*reg[o.s], [&](auto& S0) {
+          const auto& S = S0;
+          using ST = std::decay_t<decltype(S0)>;
+          constexpr int tt = matTag<TT>(), st = matTag<ST>();
+          if constexpr (matPairOk(oAsg, tt, st)) { if (o.kind == oAsg) { auto& R = (T = S); ran = (&R == &T); } }
+          if constexpr (matPairOk(oAdd, tt, st)) {
+            if (o.kind == oAdd) { auto& R = (T += S); ran = (&R == &T); }
+            else if (o.kind == oSub) { auto& R = (T -= S); ran = (&R == &T); }
+          }
+          if constexpr (matPairOk(oAxpy, tt, st)) { if (o.kind == oAxpy) { auto& R = T.axpy(k, S); ran = (&R == &T); } }
+          if constexpr (matPairOk(oLmul, tt, st) && tt != mDG2) {
+            if (o.kind == oLmul) { auto& R = T.leftmultiply(S); ran = (&R == &T); }
+            else if (o.kind == oRmul) { auto& R = T.rightmultiply(S); ran = (&R == &T); }
+          }
+        });
+      });
+    }
+    if (!ran) return badOp("seq operation '" + segs[si] + "' could not be executed");
+    // -- observe every object
+    if (si) impl << ";";
+    for (size_t i = 0; i < decl.size(); ++i) {
+      if (i) impl << "|";
+      bool ok = true;
+      if (decl[i].isTV) {
+        impl << "-";
+        Full<K> e = logicalOf((int)i);
+        if (fail.empty() && reg[i]->via() != e.a)
+          fail = "after op " + std::to_string(si) + " (" + segs[si] + "): the transposed view object " + std::to_string(i) + " shows " +
+                 encList<K>(reg[i]->via(), ok) + " but its matrix transposed is " + encList<K>(e.a, ok);
+        continue;
+      }
+      std::vector<K> st = reg[i]->store(), vi = reg[i]->via(), ex = contract<K>(decl[i], sh[i]);
+      std::string s = encList<K>(st, ok);
+      impl << s;
+      if (!fail.empty()) continue;
+      const std::string what = "after op " + std::to_string(si) + " (" + segs[si] + "): ";
+      const std::string role = (int)i == target ? "" : " (not written by this operation)";
+      if (!ok) fail = what + "storage of object " + std::to_string(i) + " holds a non-integer / out-of-range value " + s;
+      else if (st != ex) fail = what + "storage of object " + std::to_string(i) + " (" + decl[i].kind + ") is " + s + " but the definition gives " + encList<K>(ex, ok) + role;
+      else if (vi != ex) fail = what + "object " + std::to_string(i) + " (" + decl[i].kind + ") shows " + encList<K>(vi, ok) + " but its storage and the definition give " + s + role;
+    }
+  }
+  res.impl = impl.str();
+  if (!fail.empty()) res.oracle = "FAIL " + fail;
+  return res;
+}
+
+}  // namespace sq
+
 // ---- dispatch --------------------------------------------------------------------------------------------------------
 static const std::vector<std::string> MATVS = {"madd", "msub", "mplus", "mminus", "mscale", "mdiv", "mtimes", "mltimes",
                                                "mover", "maxpy", "mneg", "meq", "mne"};
@@ -1111,10 +1563,13 @@ static const std::vector<std::string> VECOPS = {
 static bool has(const std::vector<std::string>& v, const std::string& s) { return std::find(v.begin(), v.end(), s) != v.end(); }
 
 #ifndef C01_CATS
-#define C01_CATS 127
+#define C01_CATS 255
 #endif
-template <class K> Result execK(const std::vector<std::string>& w) {
+template <class K> Result execK(const std::vector<std::string>& w, const std::string& line) {
   const std::string& op = w[1];
+#if C01_CATS & 128
+  if (op == "seq") return sq::exec<K>(w, line);
+#endif
 #if C01_CATS & 1
   if (const KDef* kd = kdef(op)) return execKernel<K>(*kd, w);
 #endif
@@ -1146,27 +1601,34 @@ template <class K> Result execK(const std::vector<std::string>& w) {
 #define C01_FIELDS 15
 #endif
 
-Result exec(const std::string& line) {
-  auto w = words(line);
-  if (w.size() < 3) return badOp("malformed line");
-  stat("field_" + w[0]);
+static Result execField(const std::vector<std::string>& w, const std::string& line) {
   try {
 #if C01_FIELDS & 1
-    if (w[0] == "Z") return execK<int>(w);
+    if (w[0] == "Z") return execK<int>(w, line);
 #endif
 #if C01_FIELDS & 2
-    if (w[0] == "D") return execK<double>(w);
+    if (w[0] == "D") return execK<double>(w, line);
 #endif
 #if C01_FIELDS & 4
-    if (w[0] == "C") return execK<CD>(w);
+    if (w[0] == "C") return execK<CD>(w, line);
 #endif
 #if C01_FIELDS & 8
-    if (w[0] == "P") return execK<GF>(w);
+    if (w[0] == "P") return execK<GF>(w, line);
 #endif
   } catch (Dune::Exception& e) {
     return Result{"ERR:Dune", std::string("FAIL dune exception: ") + e.what()};
   }
   return badOp("field " + w[0]);
+}
+Result exec(const std::string& line) {
+  auto w = words(line);
+  if (w.size() < 3) return badOp("malformed line");
+  stat("field_" + w[0]);
+  viewIncoherent() = false;
+  Result r = execField(w, line);
+  if (viewIncoherent() && r.oracle.rfind("ok", 0) == 0)
+    r.oracle = "FAIL a scalar view operand no longer shows the scalar variable it was created from";
+  return r;
 }
 
 // ---- generator -------------------------------------------------------------------------------------------------------
@@ -1208,9 +1670,100 @@ struct Gen {
   }
 };
 
+// an object history: objects of one size family (so that most pairs are compatible), then 1..8 operations drawn among
+// those that `sq::opOk` accepts for the declared objects
+static std::string genSeq(Rng& r, Gen& g) {
+  using namespace sq;
+  for (;;) {
+    std::vector<Decl> d;
+    std::ostringstream os;
+    os << g.K << " seq";
+    int fam = r.below(20) < 11 ? 1 : r.coin(2, 3) ? 2 : 3;
+    int rr = 1 + (int)r.below(3), cc = 1 + (int)r.below(3);   // family 3: shapes rr x cc, rr x rr, cc x cc; vectors of size rr / cc
+    int nobj = 2 + (int)r.below(4);
+    auto put = [&](const std::string& kind, int a, int b) {
+      Decl q; q.kind = kind; q.r = a; q.c = b;
+      if (!declShape(q)) return;
+      d.push_back(q);
+      if (q.isVec) os << " " << g.vec(kind, b); else os << " " << g.mat(kind, a, b);
+    };
+    for (int i = 0; i < nobj; ++i) {
+      static const std::vector<std::string> p1 = {"SC", "SC", "SC", "SCC", "FV", "FV", "DV", "SV", "SV", "SV", "SVC", "FM", "FM", "DM", "TV", "TV"};
+      static const std::vector<std::string> p2 = {"FV", "FV", "DV", "DV", "FM", "FM", "DM", "DG", "DG", "TV", "TV"};
+      static const std::vector<std::string> p3 = {"DVr", "DVc", "DVc", "FVc", "DMrc", "DMrc", "DMcc", "DMrr", "TV", "TV"};
+      std::string k = r.pick(fam == 1 ? p1 : fam == 2 ? p2 : p3);
+      if (k == "TV") {
+        std::vector<int> cand;
+        for (size_t j = 0; j < d.size(); ++j)
+          if (!d[j].isVec && !d[j].isTV && (d[j].tag == mFM22 || d[j].tag == mDM || d[j].tag == mDG2 || d[j].tag == mSV)) cand.push_back((int)j);
+        if (cand.empty()) { --i; if (r.coin(1, 4)) ++i; continue; }
+        Decl q; q.kind = "TV"; q.isTV = true; q.wraps = cand[r.below(cand.size())]; q.r = d[q.wraps].r; q.c = d[q.wraps].c;
+        d.push_back(q);
+        os << " TV " << q.wraps;
+      } else if (fam == 1) put(k, 1, 1);
+      else if (fam == 2) { if (k == "FV" || k == "DV") put(k, 1, 2); else put(k, 2, 2); }
+      else if (k == "DVr") put("DV", 1, rr);
+      else if (k == "DVc") put("DV", 1, cc);
+      else if (k == "FVc") put("FV", 1, cc);
+      else if (k == "DMrc") put("DM", rr, cc);
+      else if (k == "DMcc") put("DM", cc, cc);
+      else put("DM", rr, rr);
+    }
+    if (d.size() < 2) continue;
+    static const std::vector<std::string> names = {"asg", "asg", "asg", "asg", "fill", "add", "add", "sub", "axpy", "scale", "lmul", "rmul",
+                                                   "kern", "kern", "kern", "kern"};
+    int nops = 1 + (int)r.below(8), made = 0;
+    const int n = (int)d.size();
+    std::ostringstream ops;
+    for (int i = 0; i < nops; ++i) {
+      for (int attempt = 0; attempt < 12; ++attempt) {
+        // draw the operation, then one of the operand tuples it is executed for
+        Op o; o.name = r.pick(names);
+        std::vector<Op> cand;
+        if (o.name == "kern") {
+          o.kd = &KDEFS[r.below(11)];
+          for (o.a = 0; o.a < n; ++o.a) {
+            if (d[o.a].isTV) o.kd = &KDEFS[o.kd->tr == 'N' ? 0 : 1];   // a view offers mv / mtv
+            for (o.x = 0; o.x < n; ++o.x) for (o.y = 0; o.y < n; ++o.y) if (opOk(d, o)) cand.push_back(o);
+          }
+        } else {
+          o.kind = o.name == "asg" ? oAsg : o.name == "fill" ? oFill : o.name == "add" ? oAdd : o.name == "sub" ? oSub : o.name == "axpy" ? oAxpy
+                 : o.name == "scale" ? oScale : o.name == "lmul" ? oLmul : oRmul;
+          const bool unary = o.kind == oFill || o.kind == oScale;
+          for (o.t = 0; o.t < n; ++o.t) for (o.s = 0; o.s < (unary ? 1 : n); ++o.s) if (opOk(d, o)) cand.push_back(o);
+        }
+        if (cand.empty()) continue;
+        if (o.kd && r.coin()) {   // prefer a view as the matrix operand when one is available
+          std::vector<Op> views;
+          for (auto& q : cand) if (d[q.a].isTV) views.push_back(q);
+          if (!views.empty()) cand = views;
+        }
+        o = cand[r.below(cand.size())];
+        std::ostringstream t;
+        if (o.kd) t << o.kd->name << " " << o.a << " " << g.scalars(1) << " " << o.x << " " << o.y;
+        else if (o.kind == oFill || o.kind == oScale) t << o.name << " " << o.t << " " << g.scalars(1);
+        else if (o.kind == oAxpy) t << o.name << " " << o.t << " " << g.scalars(1) << " " << o.s;
+        else t << o.name << " " << o.t << " " << o.s;
+        ops << (made ? ";" : "") << t.str();
+        ++made;
+        break;
+      }
+    }
+    if (!made) continue;
+    os << " : " << ops.str();
+    return os.str();
+  }
+}
+
 static std::string genOnce(Rng& rng) {
   static const char FIELDS[] = {'Z', 'D', 'C', 'C', 'P', 'C'};
   Gen g{rng, FIELDS[rng.below(6)]};
+#if C01_CATS & 128
+#ifndef C01_SEQ_PCT
+#define C01_SEQ_PCT 10   // share of object histories among the generated cases
+#endif
+  if (rng.below(100) < C01_SEQ_PCT) return genSeq(rng, g);
+#endif
   std::ostringstream os;
   os << g.K << " ";
   auto& r = rng;
